@@ -1575,6 +1575,14 @@ func (env *LEnv) funCall(ctx context.Context, fun, args *LVal) *LVal {
 		return mark
 	}
 
+	// A resumed tail call makes its own call expression current (below); put
+	// the caller's location back on the way out, or a builtin that calls
+	// several functions in a row (map, foldl, ...) would record the next
+	// frame's call site at the position of the previous function's last tail
+	// call.
+	entryLoc := env.loc
+	defer func() { env.loc = entryLoc }()
+
 	resumePkg := ""
 callf:
 	r := env.callResumed(ctx, fun, args, resumePkg)
